@@ -975,6 +975,8 @@ class Interp:
                 return int(args[0])
             if nm == "int" and len(args) == 1 and isinstance(args[0], float):
                 return int(args[0])
+            if nm == "float" and len(args) == 1 and isinstance(args[0], str) and args[0].strip().lower().lstrip("+-") in ("inf", "infinity", "nan"):
+                return float(args[0])
             if nm in ("float", "int") and len(args) == 1 and isinstance(args[0], (SVal, int, float)):
                 return args[0]
             if nm == "sum" and len(args) == 1 and isinstance(args[0], list) and args[0] and all(isinstance(x, SVal) for x in args[0]):
@@ -1232,6 +1234,36 @@ class Interp:
                 return None
             if isinstance(base, dict) and nm == "pop" and args:
                 return base.pop(self._hashable(args[0]), args[1] if len(args) > 1 else UNKNOWN)
+        if nm in ("copy", "deepcopy") and len(c.args) == 1 and not c.keywords and (isinstance(c.func, ast.Name) or (
+                isinstance(c.func, ast.Attribute) and isinstance(c.func.value, ast.Name) and c.func.value.id == "copy" and "copy" not in env)):
+            # copy.copy(x): a new object of the same kind holding the same attribute values (one level); copy.deepcopy(x) of a symbolic
+            # object: the same, with references to the object itself inside its attributes redirected to the copy (the memo of deepcopy)
+            v = self.ev(c.args[0], env, depth)
+            if isinstance(v, Sym):
+                self._copies = getattr(self, "_copies", 0) + 1
+                nv = Sym(f"{v.tag}~copy{self._copies}")
+
+                def redirect(x, d=0):
+                    if x == v:
+                        return nv
+                    if d < 4 and isinstance(x, list):
+                        return [redirect(y, d + 1) for y in x]
+                    if d < 4 and isinstance(x, dict):
+                        return type(x)((k_, redirect(y, d + 1)) for k_, y in x.items()) if type(x) is dict else x
+                    return x
+                for (t_, a_), val in list(self.heap.items()):
+                    if t_ == v.tag:
+                        self.heap[(nv.tag, a_)] = redirect(val) if nm == "deepcopy" else val
+                return nv
+            if nm == "deepcopy" and not isinstance(v, (int, float, str, bool, tuple)) and v is not None:
+                return UNKNOWN
+            if isinstance(v, Obj):
+                return Obj(v.cls, dict(v.fields))
+            if isinstance(v, (list, dict, set)):
+                return type(v)(v)
+            if isinstance(v, (int, float, str, tuple, bool)) or v is None:
+                return v
+            return UNKNOWN
         if isinstance(c.func, ast.Attribute) and nm == "copy":
             v = self.ev(c.func.value, env, depth)
             if isinstance(v, list):
